@@ -384,13 +384,13 @@ static void finish_line(void)
 	if (worker_alive && worker_parked) snprintf(b, sizeof(b), "sel to=%ld tun=%d dns=%d", sel_to, sel_tun, sel_dns);
 	else snprintf(b, sizeof(b), "idle");
 	ev_str(b);
-	snprintf(b, sizeof(b), " | st now=%ld run=%d cid=%u/%u/%u rs=%u out=%d/%d/%d/%d/%d/%u in=%d/%d/%d/%u ocr=%d conn=%d lazy=%d sps=%ld ldt=%ld sel=%d enc=%s dn=%c qt=%u uid=%d ml=%d e0=%d",
+	snprintf(b, sizeof(b), " | st now=%ld run=%d cid=%u/%u/%u rs=%u out=%d/%d/%d/%d/%d/%u in=%d/%d/%d/%u ocr=%d conn=%d lazy=%d sps=%ld ldt=%ld lrp=%ld sel=%d enc=%s dn=%c qt=%u uid=%d ml=%d e0=%d",
 		 (long) vnow, running, (unsigned) chunkid, (unsigned) chunkid_prev, (unsigned) chunkid_prev2, (unsigned) rand_seed,
 		 outpkt.len, outpkt.offset, outpkt.sentlen, (int) outpkt.seqno, (int) outpkt.fragment,
 		 wsum((unsigned char *) outpkt.data, outpkt.len > 0 && outpkt.len <= (int) sizeof(outpkt.data) ? (size_t) outpkt.len : 0),
 		 inpkt.len, (int) inpkt.seqno, (int) inpkt.fragment,
 		 wsum((unsigned char *) inpkt.data, inpkt.len > 0 && inpkt.len <= (int) sizeof(inpkt.data) ? (size_t) inpkt.len : 0),
-		 outchunkresent, (int) conn, lazymode, send_ping_soon, (long) lastdownstreamtime, selecttimeout,
+		 outchunkresent, (int) conn, lazymode, send_ping_soon, (long) lastdownstreamtime, (long) lastrawping, selecttimeout,
 		 dataenc == &base32_ops ? "b32" : dataenc == &base64_ops ? "b64" : dataenc == &base64u_ops ? "b64u" : dataenc == &base128_ops ? "b128" : "none",
 		 downenc ? downenc : '0', (unsigned) do_qtype, (int) userid, hostname_maxlen, dnsc_use_edns0);
 	ev_str(b);
